@@ -662,3 +662,134 @@ def pipeline_history(rng, uni: dict) -> list:
         hist.append({"op": "CreateCandidates", "arg": 0})
     hist.append({"op": "CreateRegions", "arg": 0})
     return hist + late
+
+
+# ---- C12: region files -----------------------------------------------------------------------------------------
+BASE_CODE = {"A": 0, "C": 1, "G": 2, "T": 3}
+
+
+def seq_codes(seq) -> list:
+    return [BASE_CODE.get(ch, 4) for ch in str(seq).upper()]
+
+
+def _named(record) -> dict:
+    """ (type, name) -> (feature, location) for the features that carry an identifier of their own """
+    out = {}
+    for feature in record.all_features:
+        name = None
+        if isinstance(feature, CDSFeature):
+            name = feature.get_name()
+        elif isinstance(feature, Prepeptide):
+            name = "prepeptide:" + feature.get_name()
+        elif isinstance(feature, (AntismashDomain, PFAMDomain, CDSMotif)):
+            name = feature.domain_id
+        elif isinstance(feature, Module):
+            name = ",".join(d.get_name() for d in feature.domains)
+        elif feature.type == "gene":
+            name = getattr(feature, "locus_tag", None)
+        if name:
+            out[(feature.type, name)] = feature
+    return out
+
+
+def _dna(feature, seq) -> str:
+    try:
+        return digest(str(feature.location.extract(seq)))
+    except Exception as err:  # pylint: disable=broad-except
+        return "x" + type(err).__name__
+
+
+def add_dna(projection: dict, record) -> dict:
+    """ attaches to every projected feature the digest of the bases it covers (read through its own location) """
+    by_key = {}
+    for feature in record.all_features:
+        by_key.setdefault((feature.type, json.dumps(project.loc(feature.location))), []).append(feature)
+    for group in ("feats", "protos", "subs", "cands", "regions"):
+        for item in projection[group]:
+            found = by_key.get((item["type"], json.dumps(item["loc"])), [])
+            item["dna"] = _dna(found[0], record.seq) if found else "missing"
+    return projection
+
+
+def _raw_numbers(bio) -> dict:
+    """ the numbering qualifiers as written in a region file """
+    def ints(feature, key):
+        out = []
+        for value in feature.qualifiers.get(key, []):
+            try:
+                out.append(int(value))
+            except ValueError:
+                out.append(-1)
+        return out
+    raw = {"protos": [], "cores": [], "cands": [], "subs": [], "cand_protos": [], "region_cands": [], "region_subs": [], "regions": 0}
+    for feature in bio.features:
+        if feature.type == "protocluster":
+            raw["protos"] += ints(feature, "protocluster_number")
+        elif feature.type == "proto_core":
+            raw["cores"] += ints(feature, "protocluster_number")
+        elif feature.type == "cand_cluster":
+            raw["cands"] += ints(feature, "candidate_cluster_number")
+            raw["cand_protos"].append(ints(feature, "protoclusters"))
+        elif feature.type == "subregion":
+            raw["subs"] += ints(feature, "subregion_number")
+        elif feature.type == "region":
+            raw["regions"] += 1
+            raw["region_cands"] += ints(feature, "candidate_cluster_numbers")
+            raw["region_subs"] += ints(feature, "subregion_numbers")
+    return raw
+
+
+EMPTY_RAW = {"protos": [], "cores": [], "cands": [], "subs": [], "cand_protos": [], "region_cands": [], "region_subs": [], "regions": 0}
+
+
+def extract_regions(record, workdir: str = None, keep_text: bool = False) -> dict:
+    """ writes the region file of every region the way main.write_outputs does (one shared Biopython record),
+        reloads each file and projects it """
+    out = {"exc": "", "extracts": []}
+    tmp = tempfile.mkdtemp(prefix="persist_", dir=workdir)
+    try:
+        before = add_dna(project_record(record), record)
+        out["before"] = before
+        out["seq"] = seq_codes(record.seq)
+        bio = record.to_biopython()
+        named_before = _named(record)
+        handle = io.StringIO()
+        SeqIO.write([bio], handle, "genbank")
+        out["bio_before"] = digest(handle.getvalue())
+        for index, region in enumerate(record.get_regions()):
+            item = {"region": index + 1, "exc": "", "rec": EMPTY_REC, "seq": [], "raw": EMPTY_RAW, "pairs": [], "stage": "write"}
+            path = os.path.join(tmp, f"region{index + 1}.gbk")
+            try:
+                region.write_to_genbank(filename=path, record=bio)
+                item["stage"] = "parse"
+                with open(path, encoding="utf-8") as text_handle:
+                    text = text_handle.read()
+                if keep_text:
+                    item["text"] = text
+                parsed = list(SeqIO.parse(io.StringIO(text), "genbank"))
+                item["raw"] = _raw_numbers(parsed[0])
+                item["seq"] = seq_codes(parsed[0].seq)
+                item["topology"] = str(parsed[0].annotations.get("topology", ""))
+                item["stage"] = "load"
+                loaded = Record.from_biopython(parsed[0], TAXON)
+                item["stage"] = "project"
+                item["rec"] = add_dna(project_record(loaded), loaded)
+                for key, feature in sorted(_named(loaded).items()):
+                    if key in named_before:
+                        item["pairs"].append({"type": key[0], "orig": project.loc(named_before[key].location),
+                                              "new": project.loc(feature.location)})
+                item["stage"] = "done"
+            except Exception as err:  # pylint: disable=broad-except
+                item["exc"] = exc_text(err)
+            out["extracts"].append(item)
+        handle = io.StringIO()
+        SeqIO.write([bio], handle, "genbank")
+        out["bio_after"] = digest(handle.getvalue())
+        out["after"] = add_dna(project_record(record), record)
+    except Exception as err:  # pylint: disable=broad-except
+        out["exc"] = exc_text(err)
+    finally:
+        for name in os.listdir(tmp):
+            os.unlink(os.path.join(tmp, name))
+        os.rmdir(tmp)
+    return out
